@@ -1320,7 +1320,7 @@ func (f *FnVC) next(x *ssa.Next) {
 				vis := f.st.get(vh)
 				f.fact(sImp(okc, sNot(sSel(vis, out[1].T))))
 				ks := f.sorts.sortOf(mt.Key())
-				f.fact(sImp(sNot(okc), "(forall ((k "+ks+")) (! (=> "+sAnd("(not (= "+m+" 0))", sSel(sSel(f.st.get(md), m), "k"))+" (select "+vis+" k)) :pattern ((select "+vis+" k))))"))
+				f.fact(sImp(sNot(okc), "(forall ((k "+ks+")) (! (=> "+sAnd("(not (= "+m+" 0))", sSel(sSel(f.st.get(md), m), "k"))+" (select "+vis+" k)) :pattern ((select "+vis+" k)) :pattern ("+sSel(sSel(f.st.get(md), m), "k")+")))"))
 				nv := f.freshConst("visited", "(Array "+ks+" Bool)")
 				f.fact(sEq(nv, sIte(okc, sStore(vis, out[1].T, "true"), vis)))
 				f.setHeap(vh, nv)
